@@ -6,6 +6,7 @@ cd /verif || exit 2
 sel="$*"
 for d in seeded/*/; do
   m=$(basename "$d"); p=${m%%-*}
+  [ -f "$d/meta.json" ] || continue
   if [ -n "$sel" ] && ! echo " $sel " | grep -q " $p "; then continue; fi
   c=$(python3 -c "import json,sys; print(' '.join(json.load(open(sys.argv[1])).get('checks',[sys.argv[2]])))" "$d/meta.json" "$p")
   out=$(lib/try_mutant.sh "/verif/$d/patch.diff" $c 2>&1)
